@@ -6,6 +6,17 @@ from .state import *  # noqa
 from . import expr as _e
 
 
+# ghost variables written by methods of abstract objects: a loop whose body contains a call of that name havocs them
+GHOST_METHODS = {
+    "set_epoch": ["g_announced"], "collate": ["g_ncollate"], "default_collate": ["g_ndc"],
+    "scale_strength": ["g_scaled", "g_scaled_f", "g_nscaled"], "set_rng": ["g_rng", "g_rng_set"],
+    "worker_init_fn": ["g_winit", "g_worker_init_fn", "g_last_worker_init_fn"],
+    "_worker_init_fn": ["g_winit", "g_worker_init_fn"], "dispose": ["g_dispose", "g_last_dispose"],
+}
+# written by calling an abstract callable / transform under any name
+GHOST_ANY_CALL = ["g_ncalls", "g_called", "g_called_arg", "g_napplied", "g_applied"]
+
+
 def _nonneg(st, name, idx):
     """len(...) >= 0, for an indexed family as a universally quantified domain axiom"""
     if not idx:
@@ -312,6 +323,97 @@ class AbsSchedule(VAbs):
         raise KeyError(name)
 
 
+RAW, RAW_CTX, COLLATED, COLLATED_PAIR, CTXLIST, CTXDICT = range(6)
+
+
+class AbsBatch(VAbs):
+    """a batch travelling through the collator pipeline, abstracted to its layout and its origin:
+    0 RAW (list of samples) 1 RAW_CTX (list of (sample, ctx)) 2 COLLATED 3 COLLATED_PAIR (collated (batch, ctx))
+    4 CTXLIST (tuple of per-sample ctx dicts) 5 CTXDICT (one batched ctx dict). default_collate / zip(*batch) /
+    tuple unpacking are the only layout-changing operations (torch default_collate contract, DESIGN section 4)."""
+    label = "batch"
+
+    def __init__(self, layout, origin):
+        self.layout = layout if not isinstance(layout, int) else z3.IntVal(layout)
+        self.origin = origin
+
+    def havoc(self, label):
+        return AbsBatch(z3.Int(uid(label + "$layout")), z3.Const(uid(label + "$origin"), ValSort))
+
+    def isinstance(self, clsname, st, eng):
+        if clsname == "dict":
+            return self.layout == CTXDICT
+        if clsname in ("tuple", "list"):
+            return z3.Or(self.layout == RAW, self.layout == RAW_CTX, self.layout == CTXLIST, self.layout == COLLATED_PAIR)
+        return None
+
+    def unpack(self, n, st, eng, node):
+        eng.safety(st, "batch:unpack-pair", z3.And(self.layout == COLLATED_PAIR, n == 2), node,
+                   "`batch, ctx = batch` on something that is not a collated (batch, ctx) pair")
+        return [AbsBatch(COLLATED, self.origin), AbsBatch(CTXDICT, self.origin)]
+
+    def zip_star(self, st, eng, node):
+        eng.safety(st, "batch:zip-star-needs-raw-ctx", self.layout == RAW_CTX, node,
+                   "zip(*batch) on a batch that is not a list of (sample, ctx) pairs")
+        return VTuple([AbsBatch(RAW, self.origin), AbsBatch(CTXLIST, self.origin)])
+
+
+def default_collate_handler(args, kwargs, st, eng):
+    b = eng.deref(args[0], st)
+    if isinstance(b, AbsBatch):
+        eng.safety(st, "default_collate:not-yet-collated", z3.Or(b.layout == RAW, b.layout == RAW_CTX, b.layout == CTXLIST), None,
+                   "default_collate applied to an already collated batch")
+        if "g_ndc" in st.ghost:
+            st.ghost["g_ndc"] = VInt(st.ghost["g_ndc"].t + z3.If(b.layout == CTXLIST, 0, 1))
+        lay = z3.If(b.layout == RAW, COLLATED, z3.If(b.layout == RAW_CTX, COLLATED_PAIR, CTXDICT))
+        return AbsBatch(lay, b.origin)
+    return fresh(VAL, "collated")
+
+
+class AbsCollator(VAbs):
+    """a KDSingleCollator member: default_collate_mode in {None, 'before', 'after'}; collate() must be handed the
+    layout its mode asks for (collated for 'before', raw otherwise) and returns a batch of the same layout"""
+    label = "collator"
+
+    def __init__(self, name, idx=()):
+        self.name, self.idx = name, tuple(idx)
+        self.mode = _fn(name + "$mode", idx, z3.IntSort())      # 0 None, 1 before, 2 after
+
+    def key(self):
+        return (self.name, self.idx)
+
+    def isinstance(self, clsname, st, eng):
+        return z3.BoolVal(clsname.endswith("KDSingleCollator") or clsname.endswith("KDCollatorBase"))
+
+    def getattr(self, name, st, eng):
+        if name == "default_collate_mode":
+            st.assume(z3.And(0 <= self.mode, self.mode <= 2)) if not self.idx else None
+            m = self.mode
+            return VOpt(m == 0, VStr(t=z3.If(m == 1, VStr("before").t, VStr("after").t)))
+        if name == "collate":
+            def f(args, kwargs, s, e):
+                b = kwargs.get("batch", args[0] if args else None)
+                b = e.deref(b, s)
+                if isinstance(b, AbsBatch):
+                    e.safety(s, "collate:layout-matches-mode", z3.If(self.mode == 1, b.layout == COLLATED, b.layout == RAW), None,
+                             "a member collator is handed a batch layout other than the one its default_collate_mode asks for", assume=False)
+                    if "g_ncollate" in s.ghost:
+                        s.ghost["g_ncollate"] = VInt(s.ghost["g_ncollate"].t + 1)
+                    return AbsBatch(b.layout, b.origin)
+                return fresh(VAL, "collated")
+            return VFunc("collator.collate", f)
+        if name == "set_rng":
+            def f(args, kwargs, s, e):
+                if "g_rng_set" in s.ghost:
+                    s.ghost["g_rng_set"] = _upd(s.ghost["g_rng_set"], self.idx[0] if self.idx else z3.IntVal(0), VBool(True))
+                return self
+            return VFunc("collator.set_rng", f)
+        raise KeyError(name)
+
+
+COLLATOR = TAbs(lambda name, idx: AbsCollator(name, idx), "collator")
+BATCH = TAbs(lambda name, idx: AbsBatch(z3.Int(name + "$layout"), z3.Const(name + "$origin", ValSort)), "batch")
+
 TRANSFORM = TAbs(lambda name, idx: AbsTransform(name, idx), "transform")
 SCHEDULE = TAbs(lambda name, idx: AbsSchedule(name, idx), "schedule")
 
@@ -370,6 +472,24 @@ def install_spec_builtins(eng):
         d = args[0].inner if isinstance(args[0], VOpt) else args[0]
         return VBool(eng.dict_get(d, args[1], st)[0])
     eng.spec_builtins["DictHas"] = VFunc("DictHas", dict_has)
+
+    def layout(args, kwargs, st, eng):
+        b = eng.deref(args[0], st)
+        if isinstance(b, AbsBatch):
+            return VInt(b.layout)
+        if isinstance(b, HObj) and b.cls == "builtins.dict":
+            return VInt(CTXDICT)
+        return VInt(-1)
+    eng.spec_builtins["Layout"] = VFunc("Layout", layout)
+
+    def origin(args, kwargs, st, eng):
+        b = eng.deref(args[0], st)
+        return VVal(b.origin) if isinstance(b, AbsBatch) else fresh(VAL, "noorigin")
+    eng.spec_builtins["Origin"] = VFunc("Origin", origin)
+
+    def mode_of(args, kwargs, st, eng):
+        return VInt(args[0].mode)
+    eng.spec_builtins["ModeOf"] = VFunc("ModeOf", mode_of)
 
     def call_attr(args, kwargs, st, eng):
         f = args[0].getattr(args[1].s, st, eng)
